@@ -95,6 +95,23 @@ def execute(case, **kw):
     return shipped.execute(case['persona'], **args)
 
 
+def execute_cli(case):
+    """the same session through habutax.main() with the real prompt_input (scripted stdin)"""
+    import os
+    from .. import crash
+    from . import c20
+    world = c20.shipped_world(case)
+    path = os.path.join(simrun.scratch_dir(), 'ship_cli_in.ini')
+    crash.write_text(path, c20.initial_text(case, 'shipped'))
+    cli = {'prompt': case['prompt'], 'writeback': False, 'solution': False,
+           'interrupt': [case['refuse_at'], 'ctrlc'] if case.get('refuse_at') is not None else None}
+    run = crash.session(world, path, cli)
+    texts = {f'{sec}.{k}': v for (sec, k), v in run.before_items.items()}
+    texts.update({n: t for n, t in run.answers.items()})
+    run.input_texts = texts
+    return run
+
+
 def stats(case, run, r1, acc, prop):
     acc.steps += run.rec.attempts + run.rec.prompts
     acc.count(f'outcome:shipped-{run.outcome}/{r1.verdict}')
@@ -172,7 +189,14 @@ def stats(case, run, r1, acc, prop):
 def evaluate(prop, case, acc=None):
     if prop == 'C05':
         return evaluate_group(case, acc)
-    run = execute(case)
+    try:
+        run = execute_cli(case) if case.get('level') == 'cli' else execute(case)
+    except (core.RunTimeout, core.BudgetExceeded) as e:
+        if prop == 'C06':
+            return [simrun.F('C06', 'C06.term', 'no-termination', f'shipped session did not finish: {type(e).__name__} {e}')]
+        raise
+    if run.outcome == 'unknown':
+        return []
     r1 = shipped.model_for(case['persona'], run)
     fs = [dict(f, property=prop) for f in shipped.judge(case['persona'], run, r1) if SELECT[prop](f)]
     if acc is not None:
@@ -269,11 +293,13 @@ def evaluate_group(case, acc=None):
     return fs
 
 
-def run_one(prop, seed, acc, tier):
+def run_one(prop, seed, acc, tier, level=None):
     case = make_case(seed, prop)
+    if level:
+        case['level'] = level
     if prop == 'C05':
         case['variants'] = group_variants(case, seed, core.Rng(seed).pick([4, 6, 8]))
-    engine = 'shipped_group' if prop == 'C05' else 'shipped'
+    engine = 'shipped_group' if prop == 'C05' else ('shipped_cli' if level == 'cli' else 'shipped')
     for f in evaluate(prop, case, acc):
         acc.violation(base.violation(prop, f, case, seed, engine))
 
